@@ -115,7 +115,7 @@ class History:
             elif k == "CS" and code == "0":
                 self.sub_ackdl[rt[2]] = int(rt[4])
                 ev["sub"] = rt[2]
-            elif k == "PUB" and code == "0":
+            elif k in ("PUB", "PUBN") and code == "0":
                 ev["ids"] = rt[3:3 + int(rt[2])]
                 ev["topic"] = ot[1]
             elif k == "PULL" and code == "0":
@@ -507,6 +507,10 @@ def mon_wait(ops, lines):
             stream_sub[ot[1]] = ot[2]
         if ot[0] == "BG" and ot[2:3] == ["PULL"] and ot[-1] == "0":
             bg_sub[ot[1]] = ot[3]
+        if ot[0] == "JOIN" and rt[2:] != ["-"]:
+            bg_sub.pop(ot[1], None)       # that call has returned: it is no longer a consumer
+        if ot[0] == "CANCEL":
+            bg_sub.pop(ot[1], None)
         if ot[0] == "STATS" and rt[1:2] == ["0"] and int(rt[3]) > 0:
             sub = ot[1]
             # look at the observations that follow immediately (until the next state-changing op)
@@ -769,4 +773,206 @@ def mon_racing_namespace(ops, lines):
     for (k, name), codes in deletes.items():
         if codes.count("0") < 1:
             return "C10-delete-lost: none of %d racing %s of %r succeeded" % (len(codes), k, unhx(name))
+    return None
+
+
+def mon_fanout(ops, lines):
+    """C01 on the implementation's own answers, for calls issued one after the other (racing calls are left to
+    mon_order_conc): (1) nothing foreign - every delivery on a subscription is a message published to the topic
+    instance it was created on, by a Publish that had not completed before the subscription was created; (2) nothing
+    lost - once a drain epilogue (gen.with_drain) has let every lease run out and has pulled a subscription until an
+    empty answer, every message posted to that subscription instance and never named in an acknowledgement has been
+    delivered during the drain."""
+    from gen import DRAIN_ADV
+    h = History(ops, lines)
+    if h.bad:
+        return "C01-" + h.bad
+    topic_inst, sub_inst, n_inst = {}, {}, [0]
+    stream_inst = {}
+    drain_at = None
+    bg_pub = {}
+
+    def new_inst():
+        n_inst[0] += 1
+        return n_inst[0]
+
+    def deliver(inst, name, d, idx):
+        if inst is None:
+            return None
+        if d.mid not in inst["allowed"]:
+            return ("C01-foreign: %r received message %r at op %d, which was never published to its topic while it "
+                    "existed" % (unhx(name), unhx(d.mid), idx))
+        inst["by_ack"][d.ack] = d.mid
+        if drain_at is not None:
+            inst["drained"].add(d.mid)
+        return None
+
+    for ev in h.events:
+        ot, code, k, idx = ev["op"], ev["code"], ev["op"][0], ev["i"]
+        if k == "CT" and code == "0":
+            topic_inst[ot[1]] = new_inst()
+        elif k == "DT" and code == "0":
+            topic_inst.pop(ot[1], None)
+        elif k == "CS" and code == "0":
+            sub_inst[ot[1]] = {"topic": topic_inst.get(ot[2]), "posted": set(), "allowed": set(), "acked": set(),
+                               "by_ack": {}, "drained": set(), "empty": False, "unsure": False}
+        elif k == "DS" and code == "0":
+            sub_inst.pop(ot[1], None)
+        elif k in ("PUB", "PUBN") and code == "0":
+            ti = topic_inst.get(ot[1])
+            for inst in sub_inst.values():
+                if ti is not None and inst["topic"] == ti:
+                    inst["posted"].update(ev["ids"])
+                    inst["allowed"].update(ev["ids"])
+        elif k == "BG":
+            # a call that runs concurrently with what follows: which subscriptions it reaches is not determined
+            # by the issue order, so subscriptions of that topic are not judged for loss, and its ids are allowed
+            if ot[2] in ("PUB", "PUBN"):
+                bg_pub[ot[1]] = topic_inst.get(ot[3])
+            for inst in sub_inst.values():
+                inst["unsure"] = True
+        elif k == "JOIN" and ot[1] in bg_pub and ev["res"][2:4] == ["PUB", "0"]:
+            ids = ev["res"][5:5 + int(ev["res"][4])]
+            for inst in sub_inst.values():
+                inst["allowed"].update(ids)
+        elif k == "SEQ":
+            for inst in sub_inst.values():
+                inst["unsure"] = True
+        elif k == "ADV" and int(ot[1]) == DRAIN_ADV:
+            drain_at = idx
+        elif k == "SO" and code == "0":
+            stream_inst[ot[1]] = (ot[2], sub_inst.get(ot[2]))
+        if k in ("ACK",) and code == "0":
+            inst = sub_inst.get(ot[1])
+            if inst:
+                inst["acked"].update(ack_value(a) for a in ev["ids"] if is_u64(a))
+        if k == "SS":
+            name, inst = stream_inst.get(ot[1], (None, None))
+            if inst:
+                inst["acked"].update(ack_value(a) for a in ev["acks"] if is_u64(a))
+        for d in ev.get("msgs", []):
+            inst = sub_inst.get(d.sub)
+            w = deliver(inst, d.sub, d, idx)
+            if w:
+                return w
+        if k == "PULL" and code == "0" and drain_at is not None and not ev.get("msgs"):
+            inst = sub_inst.get(ot[1])
+            if inst:
+                inst["empty"] = True
+        for b in ev.get("batches", []):
+            for d in b:
+                name, inst = stream_inst.get(ev["sid"], (None, None))
+                if inst is not None and sub_inst.get(name) is not inst:
+                    inst = None         # the subscription was deleted meanwhile: batches sent before that still arrive
+                w = deliver(inst, name, d, idx)
+                if w:
+                    return w
+    if drain_at is None:
+        return None
+    for name, inst in sub_inst.items():
+        if not inst["empty"] or inst["unsure"]:
+            continue
+        # a delivery may be acknowledged before the script has read it off its stream: resolve ack ids at the end
+        acked = {mid for ack, mid in inst["by_ack"].items() if is_u64(ack) and ack_value(ack) in inst["acked"]}
+        lost = inst["posted"] - acked - inst["drained"]
+        if lost:
+            return ("C01-lost: %d message(s) published to the topic of %r while it was attached (e.g. id %r) were never "
+                    "acknowledged, yet a drain after every lease had run out (op %d on) did not deliver them"
+                    % (len(lost), unhx(name), unhx(sorted(lost)[0]), drain_at))
+    return None
+
+
+def mon_namespace(ops, lines):
+    """C10 / C11 on the implementation's own answers, for calls issued one after the other: the namespace the
+    answers imply (a name exists from its successful create to its successful delete) must explain every status -
+    no create succeeds on a live name or reports ALREADY_EXISTS for an absent one, get/delete/pull/publish answer
+    NOT_FOUND exactly for absent names; GetSubscription reports the topic while that topic instance lives and the
+    sentinel afterwards (also when a namesake topic was created since); complete listings (first page, no next
+    token) of a topic / of a project equal the live subscriptions created on that topic instance / the live names
+    of the project, in creation order."""
+    topics, subs = {}, {}
+    n = [0]
+
+    def proj(name):
+        m = TOPIC_SHAPE.match(unhx(name)) or SUB_SHAPE.match(unhx(name))
+        return m.group(1) if m else None
+
+    for i, (o, r) in enumerate(zip(ops, lines)):
+        ot, rt = o.split(" "), r.split(" ")
+        if r.startswith("!"):
+            return "C10-noanswer: op %d got %s" % (i, r[:60])
+        k = ot[0]
+        code = rt[1] if len(rt) > 1 else None
+        if k in ("BG", "SEQ", "MODE"):
+            return None        # concurrent calls: the issue order no longer determines the namespace
+        if code == "3" or code is None:
+            continue
+        if k == "CT":
+            if code == "0":
+                if ot[1] in topics:
+                    return "C10-duplicate: CreateTopic %r succeeded at op %d although the topic exists" % (unhx(ot[1]), i)
+                n[0] += 1
+                topics[ot[1]] = n[0]
+            elif code == "6" and ot[1] not in topics:
+                return "C10-phantom: CreateTopic %r answered ALREADY_EXISTS at op %d but no such topic exists" % (unhx(ot[1]), i)
+        elif k in ("GT", "DT", "PUB", "PUBN") or (k == "LTS" and code in ("0", "5")):
+            present = ot[1] in topics
+            if code == "0" and not present:
+                return "C10-absent-ok: %s of the absent topic %r answered OK at op %d" % (k, unhx(ot[1]), i)
+            if code == "5" and present:
+                return "C10-present-notfound: %s of the live topic %r answered NOT_FOUND at op %d" % (k, unhx(ot[1]), i)
+            if k == "DT" and code == "0":
+                del topics[ot[1]]
+            if k == "LTS" and code == "0" and ot[3] == "-" and rt[-1] == "-":
+                got = rt[3:3 + int(rt[2])]
+                want = [s for s, v in sorted(subs.items(), key=lambda kv: kv[1]["order"])
+                        if v["topic"] == ot[1] and v["inst"] == topics[ot[1]]]
+                if got != want:
+                    return ("C11-topic-list: ListTopicSubscriptions(%r) at op %d = %r, the live subscriptions created on it "
+                            "are %r" % (unhx(ot[1]), i, [unhx(x) for x in got], [unhx(x) for x in want]))
+        elif k == "CS":
+            if code == "0":
+                if ot[1] in subs:
+                    return "C10-duplicate: CreateSubscription %r succeeded at op %d although it exists" % (unhx(ot[1]), i)
+                if ot[2] not in topics:
+                    return "C10-absent-ok: CreateSubscription on the absent topic %r succeeded at op %d" % (unhx(ot[2]), i)
+                n[0] += 1
+                subs[ot[1]] = {"topic": ot[2], "inst": topics[ot[2]], "order": n[0]}
+            elif code == "6" and ot[1] not in subs:
+                return ("C10-phantom: CreateSubscription %r answered ALREADY_EXISTS at op %d but no such subscription "
+                        "exists" % (unhx(ot[1]), i))
+            elif code == "5" and ot[2] in topics:
+                return "C10-present-notfound: CreateSubscription on the live topic %r answered NOT_FOUND at op %d" % (unhx(ot[2]), i)
+        elif k in ("GS", "DS", "PULL", "STATS"):
+            present = ot[1] in subs
+            if code == "0" and not present:
+                return "C11-zombie: %s of %r answered OK at op %d although it was deleted (or never created)" % (k, unhx(ot[1]), i)
+            if code == "5" and present:
+                return "C10-present-notfound: %s of the live subscription %r answered NOT_FOUND at op %d" % (k, unhx(ot[1]), i)
+            if k == "GS" and code == "0":
+                v = subs[ot[1]]
+                live = topics.get(v["topic"]) == v["inst"]
+                want = v["topic"] if live else hx("_deleted_topic_")
+                if rt[3] != want:
+                    return ("C11-topic-field: GetSubscription(%r) at op %d reports topic %r, expected %r"
+                            % (unhx(ot[1]), i, unhx(rt[3]), unhx(want)))
+            if k == "DS" and code == "0":
+                del subs[ot[1]]
+        elif k == "LT" and code == "0" and ot[3] == "-" and rt[-1] == "-":
+            got = rt[3:3 + int(rt[2])]
+            pm = re.match(rb"^projects/([^/]*)$", unhx(ot[1]))
+            if pm:
+                want = [t for t, _ in sorted(topics.items(), key=lambda kv: kv[1]) if proj(t) == pm.group(1)]
+                if got != want:
+                    return "C10-list: ListTopics(%r) at op %d = %r, live topics are %r" % (
+                        unhx(ot[1]), i, [unhx(x) for x in got], [unhx(x) for x in want])
+        elif k == "LS" and code == "0" and ot[3] == "-" and rt[-1] == "-":
+            cnt = int(rt[2])
+            got = [rt[3 + 4 * j] for j in range(cnt)]
+            pm = re.match(rb"^projects/([^/]*)$", unhx(ot[1]))
+            if pm:
+                want = [s for s, _ in sorted(subs.items(), key=lambda kv: kv[1]["order"]) if proj(s) == pm.group(1)]
+                if got != want:
+                    return "C10-list: ListSubscriptions(%r) at op %d = %r, live subscriptions are %r" % (
+                        unhx(ot[1]), i, [unhx(x) for x in got], [unhx(x) for x in want])
     return None
